@@ -10,6 +10,14 @@ Check C09_never_wedged : forall c n t0 h0 a0 h (p : list N),
     (exists p', In [OResp (hid h) (Resolve p')] (map resps (snd (run c (sys_start n t0 h0 a0) evs)))) \/
     (In [OResp (hid h) r_tramp_fail] (map resps (snd (run c (sys_start n t0 h0 a0) evs))) /\
      free_view (ds (nd (fst (run c (sys_start n t0 h0 a0) evs)))) /\ parts (nd (fst (run c (sys_start n t0 h0 a0) evs))) = parts n).
+Check C09_never_wedged_whatever_the_pending_parts_do : forall c n t0 h0 a0 h (p : list N) (res : nat -> pstat),
+  funded c h -> mpp_ms c <> 0 -> node_ok n -> (forall i, res i <> PPend) ->
+  mem_att a0 (atts n) = false -> (forall a t g, ds n = Some (DPending a t, g) -> a0 <> a) ->
+  exists evs,
+    (exists p', In [OResp (hid h) (Resolve p')] (map resps (snd (run c (sys_start n t0 h0 a0) evs)))) \/
+    (In [OResp (hid h) r_tramp_fail] (map resps (snd (run c (sys_start n t0 h0 a0) evs))) /\
+     free_view (ds (nd (fst (run c (sys_start n t0 h0 a0) evs)))) /\
+     parts (nd (fst (run c (sys_start n t0 h0 a0) evs))) = resolve_with res 0 (parts n)).
 Check C09_interrupted_failed_is_marked_failed_and_paid : forall c n t0 h0 a0 h a t g p,
   funded c h -> ds n = Some (DPending a t, g) -> pend_ids 0 (parts n) = [] -> done_pres (parts n) = [] ->
   (mpp_ms c - (t0 - t) =? 0) = false -> a0 <> a -> mem_att a0 (atts n) = false ->
@@ -32,3 +40,4 @@ Print Assumptions C09_aged_fails_once_then_free.
 Print Assumptions C09_aged_next_set_is_paid.
 Print Assumptions C09_markfailed_write_never_refused.
 Print Assumptions C09_D4_image_recovers.
+Print Assumptions C09_never_wedged_whatever_the_pending_parts_do.
